@@ -209,7 +209,7 @@ Definition a_dstep (d : dsub) (k : cls) (b : bcls) : bcls :=
   | DLc | DBlk => b
   | DBlkSt => match k with kSl => a_space b | _ => b end
   | DDq => a_non k b
-  | DSq => match k with kSl => b | _ => a_non k b end
+  | DSq => a_non k b
   | DEscT | DEscD | DEscS => a_non k b
   end.
 
